@@ -92,6 +92,9 @@ func builtinNumberToExponential(call FunctionCall) Value {
 		return stringValue("NaN")
 	}
 	number := call.This.float64()
+	if number == 0 {
+		number = 0 // ES5 15.7.4.6 step 4: -0 is not negative
+	}
 	precision := float64(-1)
 	fractionDigits := call.Argument(0)
 	if fractionDigits.IsDefined() {
@@ -116,6 +119,9 @@ func builtinNumberToPrecision(call FunctionCall) Value {
 		return stringValue(call.This.string())
 	}
 	number := call.This.float64()
+	if number == 0 {
+		number = 0 // ES5 15.7.4.7 step 5: -0 is not negative
+	}
 	precision := toIntegerFloat(value)
 	if math.IsInf(number, 0) {
 		// ES5 15.7.4.7 step 7, before the range check of step 8.
